@@ -92,7 +92,12 @@ func nsSection(ns, other string, f *nsForm, withClass bool) string {
 	}
 	fmt.Fprintf(&b, "function tag() { return \"%s.tag\"; }\nconst K = \"%s.K\";\n", id, id)
 	if withClass {
+		// unqualified class references from functions of the section, written before the class (late-bound)
+		b.WriteString("function sb() { return Box::tag(); }\nfunction nb() { return (new Box())->who(); }\n")
 		fmt.Fprintf(&b, "class Box { static function tag() { return \"%s.Box\"; } function who() { return \"who:\" . tag() . \":\" . K; } }\n", id)
+	}
+	if withClass {
+		b.WriteString("function sa() { return Box::tag(); }\nfunction na() { return (new Box())->who(); }\n")
 	}
 	if f != nil {
 		ctx("after")
@@ -134,6 +139,8 @@ var nsLibForms = []nsForm{
 	{name: "lib-use-class-static", use: func(o, x string) string { return "use " + x + "\\Box;\n" }, call: func(o, x string) string { return "Box::tag()" }},
 	{name: "lib-use-alias-static", use: func(o, x string) string { return "use " + x + "\\Box as B2;\n" }, call: func(o, x string) string { return "B2::tag()" }},
 	{name: "lib-method-calls-section-function", call: func(o, x string) string { return "(new \\" + x + "\\Box())->who()" }},
+	{name: "lib-section-unqualified-static", call: func(o, x string) string { return "\\" + x + "\\sb() . \"|\" . \\" + x + "\\sa()" }},
+	{name: "lib-section-unqualified-new", call: func(o, x string) string { return "\\" + x + "\\nb() . \"|\" . \\" + x + "\\na()" }},
 	{name: "lib-fq-const", call: func(o, x string) string { return "\\" + x + "\\K" }},
 }
 
